@@ -207,15 +207,31 @@ def run_a(case: dict, sub: bool = False) -> ObsA:
         log = os.path.join(d, 'pc.log')
         env = {'PKG_CONFIG': p['wrapper'], 'PKG_CONFIG_LIBDIR': os.path.join(d, 'pc'), 'C10_PCLOG': log,
                'CMAKE': '/nonexistent/cmake'}
-        args = ['setup', '--backend=none', f"--wrap-mode={cfg['wm']}"]
-        if cfg['fff']:
-            args.append('--force-fallback-for=' + ','.join(cfg['fff']))
-        args += [os.path.join(d, 'src'), os.path.join(d, 'b')]
-        if sub:
-            r = md.run_sub(args, cwd=d, env=env)
-        else:
+        def setup_args(wm: str, fff: T.List[str], reconf: bool) -> T.List[str]:
+            if reconf:
+                a = ['setup', '--reconfigure', f'-Dwrap_mode={wm}', '-Dforce_fallback_for=' + ','.join(fff)]
+            else:
+                a = ['setup', '--backend=none', f'--wrap-mode={wm}']
+                if fff:
+                    a.append('--force-fallback-for=' + ','.join(fff))
+            return a + [os.path.join(d, 'src'), os.path.join(d, 'b')]
+
+        def one(a: T.List[str]) -> T.Any:
+            if sub:
+                return md.run_sub(a, cwd=d, env=env)
             _reset_dep_caches()
-            r = md.run_inproc(args, cwd=d, env=env)
+            return md.run_inproc(a, cwd=d, env=env)
+
+        reconf = False
+        if case.get('prior'):
+            # the build directory has a history: it was configured before with other fallback options (dependencies
+            # found then sit in the persistent cache).  The judged run is the reconfiguration with this cell's options;
+            # the policy is a function of the options and the circumstances, not of that history.
+            r0 = one(setup_args(case['prior']['wm'], case['prior']['fff'], False))
+            reconf = r0.rc == 0
+            if os.path.exists(log):
+                os.unlink(log)
+        r = one(setup_args(cfg['wm'], cfg['fff'], reconf))
         o = ObsA()
         o.rc = r.rc
         o.crash = r.unhandled or r.rc not in (0, 1)
@@ -322,7 +338,7 @@ def classify_a(case: dict) -> T.Tuple[str, bool, bool]:
     weak = len({s.key() for s in alts}) > 1
     s = alts[0]
     last = next((p for p in reversed(s.paths) if p), 'none')
-    cls = ('A-seq/' if case.get('seq') else 'A-cell/') + last
+    cls = ('A-hist/' if case.get('prior') else 'A-seq/' if case.get('seq') else 'A-cell/') + last
     if s.error_at is not None:
         cls += '+error'
     return cls, weak, R.nontrivial_a(case['cfg'], case['steps'])
@@ -1196,6 +1212,22 @@ def run(ctx: Ctx) -> None:
     else:
         cells = table
     seqs = seq_cases(extended=not ctx.quick, ev=ctx.ev)
+    # history family: cells whose outcome depends on the fallback options, judged after a prior configuration of the same
+    # build directory under different fallback options (quick: sample)
+    hist = []
+    for c in table:
+        cfg = c['cfg']
+        if cfg['sys'] is None or len(c['steps']) != 1 or (cfg['wrap'] == 'none' and c['steps'][0][3] == 'none'):
+            continue
+        for prior in ({'wm': 'default', 'fff': []}, {'wm': 'forcefallback', 'fff': []}, {'wm': 'nofallback', 'fff': []}):
+            if prior['wm'] != cfg['wm'] or prior['fff'] != cfg['fff']:
+                hist.append({'cfg': cfg, 'steps': c['steps'], 'prior': prior})
+    if ctx.quick:
+        hist = rnd.sample(hist, min(len(hist), ctx.n(320, 0)))
+    else:
+        hist = rnd.sample(hist, min(len(hist), 6000))
+    ctx.ev.extra['A_history_cells_run'] = len(hist)
+    seqs = seqs + hist
     ctx.ev.extra['A_table_size'] = len(table)
     ctx.ev.extra['A_cells_run'] = len(cells)
     ctx.ev.extra['A_sequences_run'] = len(seqs)
